@@ -602,9 +602,42 @@ def gen_chain_program(rng: random.Random) -> List[List[Any]]:
     return [stmts]
 
 
+def gen_crossblock_program(rng: random.Random) -> List[List[Any]]:
+    """Folds in an earlier block, then a later block that defines and folds a sub recipe USING the earlier result:
+    every tree and table entry of later blocks must see the earlier folds."""
+    def ref(n, amt=None):
+        return {"ref": n, "amt": amt, "off": -1}
+
+    def step(n, *ins):
+        return {"step": [n], "ins": list(ins), "short": False}
+
+    def st(outs, e, named=False):
+        return {"outs": outs, "named": named, "expr": e, "out_offs": []}
+    w = rng.sample(WORDS[:10], 6)
+    a, b, c_, d = [w[0]], [w[1] + " mix"], [w[2] + " base"], [w[3] + " top"]
+    q = {"q": [c.num_json(rng.choice([100, 250, 2])), rng.choice(["g", "ml", None]), "", ""], "explicit": False,
+         "numtxt": None}
+    q["numtxt"] = str(c.num_unjson(q["q"][0]))
+    if q["q"][1] is None:
+        q["q"][2] = ""
+    half = {"p": [c.num_json(Fraction(1, 2)), False, None, " of the"], "numtxt": "1/2"}
+    b1 = [st([], ref(a, q)), st([b], step(rng.choice(STEPS), ref(a)), named=rng.random() < 0.6)]
+    if rng.random() < 0.4:
+        b1.append(st([], step("taste", ref(b, half))))             # a use in block 1: b stays a sub recipe
+    use_b = ref(b, rng.choice([None, half, {"p": [None, False, "rest", " of the"], "numtxt": None}]))
+    b2 = [st([c_], step(rng.choice(STEPS), use_b, ref([w[4]])), named=rng.random() < 0.5),
+          st([], step("serve", ref(c_), ref([w[5]])))]
+    blocks = [b1, b2]
+    if rng.random() < 0.4:
+        blocks.append([st([d], step("finish", ref(c_ if rng.random() < 0.3 else b, half))), st([], step("plate", ref(d)))])
+    return blocks
+
+
 def gen_program(rng: random.Random, **kw: Any) -> List[List[Any]]:
     if not kw and rng.random() < 0.12:
         return gen_chain_program(rng)
+    if not kw and rng.random() < 0.06:
+        return gen_crossblock_program(rng)
     return ProgramGen(rng, **kw).program()
 
 
